@@ -16,6 +16,7 @@ EXPLANATION = (
     "only ever sits in one of its two buckets, which is what query/delete look at. R01-cuckoo-siblings / R01-quotient-shared-scan: "
     "query, insert and delete take their coordinates from the same start()/calc_quotient_remainder(). R01-compat: the HashSet "
     "impl maps insert/query/union to HashSet::insert(clone)/contains/extend(cloned). Survival across failed operations is C12."
+    " Also applied here (their violation is a false negative): C12's restore rules for every fallible insert/union, C14's delete accounting (exactly one copy removed), R01-bucket-range (hash() reduced modulo the power-of-two n_buckets), and for the quotient filter C13's structural rules (ring arithmetic, swap chain incl. its initial triple, placement flags, scan loop facts)."
 )
 NOT_DECIDED = ("that scan/insert_internal of the quotient filter keep runs sorted and clusters intact under shifting and wrap-around "
                "(an inductive heap-shape invariant), and anything depending on actual hash values")
